@@ -919,6 +919,14 @@ func (c *FnCtx) makeIface(x Val, from, to types.Type) Val {
 	switch from.Underlying().(type) {
 	case *types.Pointer, *types.Map, *types.Chan, *types.Signature:
 		if len(x.Path) > 0 {
+			if c.abstract {
+				// abstracting tier: the interface holds an opaque non-nil payload of that dynamic type; the callee
+				// it is handed to is havoced or under its own contract, and the payload is never dereferenced here
+				n := c.fresh("absptr_iface", "Int")
+				c.define("(not (= " + n + " 0))")
+				c.used["abstracting tier: an interior pointer boxed into an interface is an opaque payload (never dereferenced)"] = true
+				return Val{T: "(mk_iface " + c.typeTag(from) + " " + n + ")", Ty: to}
+			}
 			c.unsup("interior pointer boxed into interface")
 		}
 		return Val{T: "(mk_iface " + c.typeTag(from) + " " + x.T + ")", Ty: to}
